@@ -1154,18 +1154,31 @@ def gen_race(ctx):
             corpora.append(files)
         schedule = []
         n_bulk = 0
+        ops = []   # the named bulk operations of the track; a task references one of them ("op"), several tasks may share one
         for _ in range(rng.choice([1, 1, 2, 3])):
-            def bulk_task():
-                bulk = rng.choice([1, 2, 3, 4, 5, 10])
-                pct = rng.choice([100.0] * 5 + [50.0, 25.0, 40.0, 10.0, 75.0, 7.0, 33.3, float(rng.randrange(1, 100))])
-                return {"kind": "bulk", "clients": rng.choice([1, 2, 2, 3, 4, 5, 8]), "bulk": bulk, "batch": bulk * rng.choice([1, 1, 2]),
-                        "pct": fs(pct), "corpus": rng.choice([None, None, rng.randrange(len(corpora))])}
+            def bulk_task(op=None):
+                if op is None and ops and rng.random() < 0.2:
+                    op = rng.randrange(len(ops))      # reuse an operation defined earlier in the track
+                if op is None:
+                    bulk = rng.choice([1, 2, 3, 4, 5, 10])
+                    pct = rng.choice([100.0] * 5 + [50.0, 25.0, 40.0, 10.0, 75.0, 7.0, 33.3, float(rng.randrange(1, 100))])
+                    ops.append({"bulk": bulk, "batch": bulk * rng.choice([1, 1, 2]), "pct": fs(pct),
+                                "corpus": rng.choice([None, None, rng.randrange(len(corpora))])})
+                    op = len(ops) - 1
+                return dict(ops[op], kind="bulk", clients=rng.choice([1, 2, 2, 3, 4, 5, 8]), op=op)
 
             def other_task():
                 return {"kind": "other", "clients": rng.choice([1, 1, 2, 3]), "iterations": rng.choice([1, 2, 3])}
 
             if rng.random() < 0.65:
                 tasks = [bulk_task() if rng.random() < 0.6 else other_task() for _ in range(rng.choice([1, 2, 2, 3]))]
+                if rng.random() < 0.4:
+                    # several tasks of the element built from ONE operation, with equal or different client counts
+                    first = bulk_task()
+                    same = rng.random() < 0.5
+                    block = [first] + [dict(bulk_task(first["op"]), **({"clients": first["clients"]} if same else {})) for _ in range(rng.choice([1, 1, 2]))]
+                    tasks = block + tasks[: rng.choice([0, 1, 1])]
+                    rng.shuffle(tasks)
                 total = sum(t["clients"] for t in tasks)
                 r = rng.random()
                 clients = None if r < 0.6 else (rng.randrange(1, total + 1) if r < 0.9 else total + rng.randrange(1, 3))
@@ -1184,23 +1197,37 @@ def gen_race(ctx):
 _RUNNERS_REGISTERED = False
 
 
+def bulk_operation(ops, t, name, rc, force_full):
+    """the track.Operation object of a bulk task: tasks that reference the same named operation ("op") share ONE object, the way the
+    track loader resolves operation names"""
+    from esrally import track
+
+    key = t.get("op")
+    if key is not None and key in ops:
+        return ops[key]
+    pr = {"bulk-size": t["bulk"], "batch-size": t["batch"], "ingest-percentage": 100.0 if force_full else float(Fraction(t["pct"]))}
+    if t["corpus"] is not None:
+        pr["corpora"] = rc[t["corpus"]].name
+    op = track.Operation(f"bulk-op{key}" if key is not None else name + "-op", track.OperationType.Bulk.to_hyphenated_string(), params=pr)
+    if key is not None:
+        ops[key] = op
+    return op
+
+
 def build_schedule(case, rc, force_full):
     """the real track.Task / track.Parallel objects of the case; returns (schedule, {task name: its description})"""
     from esrally import track
 
     sched, desc = [], {}
     k = 0
+    ops = {}
     for el in case["schedule"]:
         tasks = []
         for t in el["tasks"]:
             name = f"task{k}"
             k += 1
             if t["kind"] == "bulk":
-                pr = {"bulk-size": t["bulk"], "batch-size": t["batch"], "ingest-percentage": 100.0 if force_full else float(Fraction(t["pct"]))}
-                if t["corpus"] is not None:
-                    pr["corpora"] = rc[t["corpus"]].name
-                op = track.Operation(name + "-op", track.OperationType.Bulk.to_hyphenated_string(), params=pr)
-                tasks.append(track.Task(name, op, clients=t["clients"]))
+                tasks.append(track.Task(name, bulk_operation(ops, t, name, rc, force_full), clients=t["clients"]))
             else:
                 op = track.Operation(name + "-op", track.OperationType.Sleep.to_hyphenated_string(), params={"duration": 0})
                 tasks.append(track.Task(name, op, clients=t["clients"], iterations=t["iterations"]))
@@ -1428,17 +1455,14 @@ def e2e_track(case, rc, force_full):
 
     sched, desc = [], {}
     k = 0
+    ops = {}
     for el in case["schedule"]:
         tasks = []
         for t in el["tasks"]:
             name = f"task{k}"
             k += 1
             if t["kind"] == "bulk":
-                pr = {"bulk-size": t["bulk"], "batch-size": t["batch"], "ingest-percentage": 100.0 if force_full else float(Fraction(t["pct"]))}
-                if t["corpus"] is not None:
-                    pr["corpora"] = rc[t["corpus"]].name
-                op = track.Operation(name + "-op", track.OperationType.Bulk.to_hyphenated_string(), params=pr)
-                tasks.append(track.Task(name, op, clients=t["clients"]))
+                tasks.append(track.Task(name, bulk_operation(ops, t, name, rc, force_full), clients=t["clients"]))
             else:
                 op = track.Operation(name, "sim", params={"task": name, "eternal": False, "weight": 1}, param_source="sim-source")
                 tasks.append(track.Task(name, op, clients=t["clients"], iterations=t["iterations"]))
@@ -1546,12 +1570,17 @@ def run_e2e(ctx, case):
             # The model (runColumns) gives every column of the worker a new parameter source.  The sequence of bulks a group hands
             # out does not depend on who asks (ingest_percentage_prefix), so any complete call order will do for the model.
             mcols = []
+            tid = {n: i for i, n in enumerate(desc)}
+            same_op = [n for n, x in desc.items() if x["kind"] == "bulk" and (n == tname or (d.get("op") is not None and x.get("op") == d.get("op")))]
             for key in keys:
                 grp = groups[key]
                 idxs = sorted(e[0] for e in grp["entries"])
-                mcols.append({"entries": grp["entries"], "calls": [idxs[i % len(idxs)] for i in range(len(grp["bulks"]) + 2 * len(idxs) + 2)]})
+                # all allocations of the column that belong to tasks built from the same operation; the model picks its task
+                rows = [[tid[n]] + e for n in same_op for e in groups.get((key[0], key[1], n), {"entries": []})["entries"]]
+                mcols.append({"entries": rows, "calls": [idxs[i % len(idxs)] for i in range(len(grp["bulks"]) + 2 * len(idxs) + 2)]})
             m = ctx.model("bulk", "columns", {"batch": d["batch"], "bulk": d["bulk"], "conflicts": "none", "pct": d["pct"], "looped": False,
-                                              "prob": None, "on_update": False, "recency": None, "corpora": mcorp, "columns": mcols})
+                                              "prob": None, "on_update": False, "recency": None, "corpora": mcorp, "columns": mcols,
+                                              "task": tid[tname]})
             tags.update(m.get("tags", []))
             if "err" in m:
                 ctx.diff("columns-error", m, "no error")
@@ -1601,6 +1630,18 @@ def run_e2e(ctx, case):
                                                           "task": name, "clients": d["clients"]})
         multi_column = any(len(c) > 1 for c in columns_of.values())
         ctx.count("e2e:task-in-several-columns-of-a-worker" if multi_column else "e2e:one-column-per-task")
+        shared = "operation-shared-in-column" in tags
+        if shared:
+            # equal / different client counts of the tasks that share an operation inside one element
+            for el in case["schedule"]:
+                by_op = collections.defaultdict(list)
+                for x in el["tasks"]:
+                    if x["kind"] == "bulk" and x.get("op") is not None:
+                        by_op[x["op"]].append(x["clients"])
+                for cl in by_op.values():
+                    if len(cl) > 1:
+                        ctx.count("e2e:shared-operation-equal-client-counts" if len(set(cl)) == 1 else "e2e:shared-operation-different-client-counts")
+        ctx.count("e2e:operation-shared-by-tasks-of-one-column" if shared else "e2e:no-operation-shared-in-a-column")
         ctx.sig([sorted(tags), multi_column, len(case["hostnames"]), need_ref, len(case["schedule"]) > 1], nontrivial=any_bulk)
     finally:
         shutil.rmtree(tmp, ignore_errors=True)
